@@ -21,6 +21,22 @@ func c04Healthy(r *rng, id string) {
 	c.tcpPings = r.chance(1, 2)
 	c.pushPull = []time.Duration{5 * time.Second, 15 * time.Second}[r.intn(2)]
 	c.mixedProto = r.chance(1, 2)
+	// encrypted clusters: current format, or the first format (protocol version 1, padded blocks)
+	enc := []string{"n", "n", "1", "0"}[r.intn(4)]
+	if enc != "n" {
+		c.key = mkKey(r, []int{16, 24, 32}[r.intn(3)])
+		c.label = []string{"", "sim"}[r.intn(2)]
+		if enc == "0" {
+			c.proto, c.mixedProto = 1, false
+			c.padNames = 1 + r.intn(16)
+		}
+	}
+	// slow sends: the sending goroutine comes back from the transport later than the answer
+	slow := r.chance(1, 4)
+	if slow {
+		c.indirect = []int{0, 0, 1}[r.intn(3)]
+		c.tcpPings = r.chance(1, 4)
+	}
 	cl, err := newSimCluster(r, n, c)
 	if err != nil {
 		emit("C04 sim id=%s err=create", id)
@@ -30,6 +46,10 @@ func c04Healthy(r *rng, id string) {
 	cl.net.latMax = c.probeTimeout/2 - time.Millisecond
 	if r.chance(1, 3) {
 		cl.net.latMin = cl.net.latMax - time.Millisecond // everything at the bound
+	}
+	if slow {
+		cl.net.latMin, cl.net.latMax = 0, time.Duration(1+r.intn(3))*time.Millisecond
+		cl.net.slowReturn = time.Duration(8+r.intn(8)) * time.Millisecond
 	}
 	var accusations []string
 	leavers := map[string]bool{}
@@ -147,8 +167,8 @@ func c04Healthy(r *rng, id string) {
 		}
 		bs = strings.Join(bad, ",")
 	}
-	emit("C04 sim id=%s n=%d indirect=%d tcp=%d latmax=%d joinfail=%d ops=%d leavers=%d sent=%d converged=%d inv=%s claims=%d bad=%s",
-		id, n, c.indirect, b2i(c.tcpPings), cl.net.latMax.Milliseconds(), failed, len(ops), len(leavers), cl.net.sent, conv, inv, mon.total, bs)
+	emit("C04 sim id=%s n=%d enc=%s slow=%d indirect=%d tcp=%d latmax=%d joinfail=%d ops=%d leavers=%d sent=%d converged=%d inv=%s claims=%d bad=%s",
+		id, n, enc, cl.net.slowReturn.Milliseconds(), c.indirect, b2i(c.tcpPings), cl.net.latMax.Milliseconds(), failed, len(ops), len(leavers), cl.net.sent, conv, inv, mon.total, bs)
 }
 
 func TestC04(t *testing.T) {
